@@ -176,6 +176,13 @@ def run(res):
     n_sv, f_sv = static_values(res)
     found += f_sv
     res.notes["static_value_cases"] = n_sv
+    # every attribute family delivers the value of its binding in the enclosing scopes (shared with C05 / C03): the Render
+    # comparison above takes the implementation's own scope resolution as input, so a position the scope analysis forgets
+    # would be evaluated the same wrong way on both sides
+    import scopeval
+    f_sc, n_sc, _, _, _ = scopeval.check(res)
+    found += f_sc
+    res.notes["scope_position_evaluations"] = n_sc
     if not ok:
         res.violation(what, {"obligation": "Properties/C04.v"}, no_input=(found == 0))
     res.notes["attribute_route_cases"] = n_route
